@@ -10,8 +10,10 @@ import time
 from . import build, tlc
 
 VERIF = os.path.dirname(os.path.dirname(os.path.abspath(__file__)))
-EVID = os.path.join(VERIF, "evidence")
-REPLAYS = os.path.join(VERIF, "replays")
+# (VERIF_EVIDENCE_DIR / VERIF_REPLAY_DIR redirect the outputs of runs against changed trees, e.g. seeded/evaluate.py, so that the
+#  committed evidence is only ever written by runs against /repo itself)
+EVID = os.environ.get("VERIF_EVIDENCE_DIR", os.path.join(VERIF, "evidence"))
+REPLAYS = os.environ.get("VERIF_REPLAY_DIR", os.path.join(VERIF, "replays"))
 FINDINGS = os.path.join(VERIF, "known_findings.json")
 
 
